@@ -304,7 +304,7 @@ fn run_c14(ctx: &mut Ctx) {
         // decimal of long values whose top bits are all set / that sit just above a power of ten, at many different
         // lengths (a digit-count estimate that is one short only fails for particular bit counts and large mantissas)
         if TYPE_FIXED_CAP[ty].is_none() {
-            let lens: Vec<usize> = if tier == Tier::Thorough { (600..=2100).collect() } else { (0..tier.pick(6, 150, 0)).map(|_| 600 + rng.below(1500)).collect() };
+            let lens: Vec<usize> = if tier == Tier::Thorough { (600..=2100).collect() } else { (0..tier.pick(6, 320, 0)).map(|_| 600 + rng.below(1500)).collect() };
             for n in lens {
                 if !ctx.mine() {
                     continue;
